@@ -1136,7 +1136,8 @@ theorem wt_after_wait_true (hpos : ∀ n, cfg.block = some n → 0 < n) {s : Sta
     have := hp w hw'
     simpa [ax_wProc, hwk w hw'] using this
 
-/-- When shutdown(wait=True) is about to return, every accepted future is done and every worker process has exited. -/
+/-- When shutdown(wait=True) is about to return, every accepted future is done and every worker process has exited.
+    (Hypothesis `WfRes` on the whole program; `after_wait_true_lim` below is the stronger theorem.) -/
 theorem after_wait_true (hnf : NoFail eval) (hwf : WfCfg cfg) (hres : WfRes cfg) {script : List Cmd} {s : State Val Err}
     (hsc : (script.filter isSubmit).length ≤ cfg.calls.length)
     (h : Reachable cfg eval cancelErr script s) (hD : pg_depOk cfg s = true)
@@ -1145,5 +1146,17 @@ theorem after_wait_true (hnf : NoFail eval) (hwf : WfCfg cfg) (hres : WfRes cfg)
   obtain ⟨-, hL, hX, -⟩ := ax_progress_hyps_reachable cfg eval cancelErr hnf hres.2 hsc h
   have hI := wt_reachable cfg eval cancelErr hnf hres.2 h
   exact wt_after_wait_true cfg hres.2 hL.inv hX hI hm hpc hw
+
+/-- `after_wait_true` under the limit-level hypothesis `WfLim` instead of `WfRes`: nothing is
+    assumed of the program's calls (this safety form only ever needed "a block allocation has a
+    worker", which both hypotheses contain). -/
+theorem after_wait_true_lim (hnf : NoFail eval) (hwf : WfCfg cfg) (hl : WfLim cfg) {script : List Cmd} {s : State Val Err}
+    (hsc : (script.filter isSubmit).length ≤ cfg.calls.length)
+    (h : Reachable cfg eval cancelErr script s) (hD : pg_depOk cfg s = true)
+    {sd : Sd} (hm : s.mainPc = .inSd sd) (hpc : sd.pc = .finish) (hw : sd.wait = true) :
+    allAcceptedDone s = true ∧ noProcessAlive s = true := by
+  obtain ⟨-, hL, hX, -⟩ := ax_progress_hyps_reachable cfg eval cancelErr hnf hl.1 hsc h
+  have hI := wt_reachable cfg eval cancelErr hnf hl.1 h
+  exact wt_after_wait_true cfg hl.1 hL.inv hX hI hm hpc hw
 
 end ExecModel.Sys
